@@ -14,7 +14,13 @@ def node(el, strip_ws=True):
         text = None
     if text == "":
         text = None          # <a></a> and <a/> are the same document
-    attrs = sorted(([qn(k), v] for k, v in el.attrib.items()), key=lambda p: (p[0][0] or "", p[0][1]))
+    items = []
+    for k, v in el.attrib.items():
+        if k == "{http://www.w3.org/2001/XMLSchema-instance}type":
+            pfx, local = v.split(":", 1) if ":" in v else (None, v)
+            v = "{%s}%s" % (el.nsmap.get(pfx, pfx), local)      # QName-valued: compare expanded names
+        items.append([qn(k), v])
+    attrs = sorted(items, key=lambda p: (p[0][0] or "", p[0][1]))
     return {"t": qn(el.tag), "a": attrs, "x": text, "k": kids}
 
 
